@@ -316,7 +316,15 @@ func wireFault(t *rapid.T, d *m.Design, meth *m.Method, c *caseRec) bool {
 	// the request sent without any body (the document's requestBody.required
 	// against the server's missing_payload)
 	if len(gen.BodyAttrs(d, meth)) > 0 || (h.Body != nil && h.Body.Mode == "attr") {
-		opts = append(opts, []harness.Edit{{Op: "del_body"}})
+		// open finding: for Body("attr") of an attribute that is not required
+		// the server does not insist on a body, but it validates the zero value
+		// it decoded nothing into; only bodies whose type carries no constraint
+		// at all are sent without body while the finding is open
+		if f := bodyAttrField(d, meth); f != nil && !f.Required && constrained(d, f.Attr) && kf.Open("C14-absent-optional-body-attribute-validated-as-zero-value") {
+			stats.Excluded("C14-absent-optional-body-attribute-validated-as-zero-value")
+		} else {
+			opts = append(opts, []harness.Edit{{Op: "del_body"}})
+		}
 	}
 	if len(opts) == 0 {
 		return false
@@ -326,6 +334,52 @@ func wireFault(t *rapid.T, d *m.Design, meth *m.Method, c *caseRec) bool {
 		stats.Class("wire:body-removed")
 	}
 	return true
+}
+
+// bodyAttrField returns the payload attribute named by Body("attr"), if any.
+func bodyAttrField(d *m.Design, meth *m.Method) *m.Field {
+	if meth.HTTP == nil || meth.HTTP.Body == nil || meth.HTTP.Body.Mode != "attr" {
+		return nil
+	}
+	return d.FieldByName(meth.Payload, meth.HTTP.Body.Attr)
+}
+
+// constrained reports whether a value of the attribute can be invalid at all:
+// a validation on it (or on the user types it refers to), a required field of
+// an object, or anything of that kind below.
+func constrained(d *m.Design, a *m.Attr) bool {
+	seen := map[string]bool{}
+	var walk func(a *m.Attr) bool
+	walk = func(a *m.Attr) bool {
+		if a == nil || a.Type == nil {
+			return false
+		}
+		if !a.V.Empty() {
+			return true
+		}
+		switch a.Type.Kind {
+		case m.User:
+			if seen[a.Type.User] {
+				return false
+			}
+			seen[a.Type.User] = true
+			if ut := d.TypeByName(a.Type.User); ut != nil {
+				return walk(ut.Attr)
+			}
+		case m.Array:
+			return walk(a.Type.Elem)
+		case m.Map:
+			return walk(a.Type.Key) || walk(a.Type.Val)
+		case m.Object, m.Union:
+			for _, f := range a.Type.Fields {
+				if f.Required || walk(f.Attr) {
+					return true
+				}
+			}
+		}
+		return false
+	}
+	return walk(a)
 }
 
 func runCase(b *rt.Built, dc *docs, s *m.Service, meth *m.Method, c *caseRec) string {
